@@ -26,7 +26,7 @@ FLOORS = {'quick': {'queries': 56000, 'moore': 28000, 'neumann': 28000, 'center_
                     'center_as_position': 14000, 'center_fractional': 14000, 'generic_entry': 28000, 'clipped_queries': 10000,
                     'shapes': 36, 'big_shapes': 3, 'big_queries': 600, 'big_balls_1024_plus': 40, 'non_cubic_shapes': 30, 'reach:Environments.DiscreteWorld.get_moore_neighbours': 28000,
                     'reach:Environments.DiscreteWorld.get_neumann_neighbours': 28000, 'reach:Environments.DiscreteWorld.get_neighbours': 28000},
-          'thorough': {'queries': 1000000, 'shapes': 200}}
+          'thorough': {'queries': 1000000, 'shapes': 180}}
 EXHAUSTIVE = {'quick': 'all shapes with extents 0..3, all centres, radii 0..max extent+1, all 64 query variants',
               'thorough': 'all shapes with extents 0..6, all centres, radii 0..max extent+1, all 64 query variants'}
 
